@@ -191,13 +191,7 @@ Lemma v2_close_tail_lframe s2 app asset s' :
 Proof. destruct (amp (cs s2) (app, asset)); [apply mapping_lframe|discriminate]. Qed.
 
 Lemma v2_surplus_close_lframe s app asset lot s' : v2_surplus_close s app asset lot = Ok s' -> lframe s s'.
-Proof.
-  unfold v2_surplus_close. intros H. apply obind_ok in H. destruct H as (s1 & H1 & H2).
-  apply obind_ok in H2. destruct H2 as (s2 & H2 & H3).
-  eapply lframe_trans; [|eapply lframe_trans; [|exact (v2_close_tail_lframe _ _ _ _ H3)]].
-  - eapply lframe_lift; [exact H1|]. intros c Hc. eapply cframe_csend; [exact collector_ne_locker|exact Hc].
-  - eapply lframe_lift; [exact H2|]. intros c Hc. eapply cframe_set_net_fee; exact Hc.
-Qed.
+Proof. unfold v2_surplus_close. intros H. exact (v2_close_tail_lframe _ _ _ _ H). Qed.
 
 Lemma v2_debt_close_lframe s app asset ca dd da s' : v2_debt_close s app asset ca dd da = Ok s' -> lframe s s'.
 Proof.
